@@ -201,6 +201,8 @@ def run_stream(p, xs, resets=(), seed=0):
     det = KdqTreeStreaming(window_size=p["window_size"], persistence=p["persistence"], alpha=p["alpha"],
                            bootstrap_samples=p["bootstrap_samples"], count_ubound=p["count_ubound"],
                            cutpoint_proportion_lbound=lb)
+    from .containers import Feeder
+    feeder = Feeder(p["feed"]["seed"], p["feed"]["kinds"]) if isinstance(p.get("feed"), dict) else None
     ev = []
     epoch = []       # samples of the current epoch while the reference window is being collected
     have_ref = False
@@ -214,7 +216,7 @@ def run_stream(p, xs, resets=(), seed=0):
         if det.drift_state == "drift":
             epoch, have_ref = [], False
         np.random.seed((seed * 7919 + t) % (2 ** 32))
-        det.update(_feed(x, p.get("feed", "array")))
+        det.update(feeder.row(x) if feeder else _feed(x, p.get("feed", "array")))
         c = {"crit": _crit(det), "lo": "None", "hi": "None"}
         if not have_ref:
             epoch.append(x)
@@ -235,6 +237,8 @@ def run_batch(p, batches, setrefs=(), first_is_reference=True, seed=0):
     lb = p["lbnum"] / p["lbden"]
     det = KdqTreeBatch(alpha=p["alpha"], bootstrap_samples=p["bootstrap_samples"], count_ubound=p["count_ubound"],
                        cutpoint_proportion_lbound=lb)
+    from .containers import feeder_of
+    feeder = feeder_of(p, "array")
     ev = []
     prev = None
     none = {"crit": "None", "lo": "None", "hi": "None"}
@@ -245,7 +249,7 @@ def run_batch(p, batches, setrefs=(), first_is_reference=True, seed=0):
 
     for t, b in enumerate(batches):
         np.random.seed((seed * 7919 + t) % (2 ** 32))
-        X = np.array(b, dtype=float)
+        X = feeder.batch(b)
         if t in setrefs or (t == 0 and first_is_reference):
             det.set_reference(X)
             lo, hi = br(b, seed + t)
